@@ -12,11 +12,39 @@ Local Open Scope Z_scope.
    bof_is_first_real_statement v :=
      forall db f k, wf db f -> 0 <= k -> (is_real db f k = true <-> impl_bof db v f <= k)
    Both are false of the unrepaired code. *)
-Theorem count_is_eof_refuted : ~ count_is_eof_statement v0.
+(* still false of the frozen tree (vc): MPLEX over a forward PHASE (re-seek error) ... *)
+Theorem count_is_eof_refuted : ~ count_is_eof_statement vc.
+Proof. exact count_statement_refuted_current. Qed.
+
+(* ... and the floor in _GD_GetBOF (open finding extents/bof-of-fields-with-phase) *)
+Theorem bof_is_first_real_refuted : ~ bof_is_first_real_statement vc.
+Proof. exact bof_statement_refuted_current. Qed.
+
+(* history: the pre-repair source *)
+Theorem count_is_eof_refuted_before_repairs : ~ count_is_eof_statement v0.
 Proof. exact count_statement_refuted. Qed.
 
-Theorem bof_is_first_real_refuted : ~ bof_is_first_real_statement v0.
+Theorem bof_is_first_real_refuted_before_repairs : ~ bof_is_first_real_statement v0.
 Proof. exact bof_statement_refuted. Qed.
+
+(* THE count theorem for the frozen tree: every field without MPLEX, every window *)
+Theorem count_is_eof_current :
+  forall (A : Alg) (db : database) (v : variant) (f : field) (rt : ctype) (s n e : Z),
+    v_align v = true -> v_alloc0 v = true -> v_clamp v = true ->
+    wf db f -> mplex_free f -> 0 <= s -> 0 <= n ->
+    ~ In TRawPad (uncovered A db v rt f s n) ->
+    impl_eof db v f = Some e ->
+    read_count A db v rt f s n = Some (Z.min n (Z.max 0 (e - s))).
+Proof. exact C16.WitnessProofs.count_is_eof_current. Qed.
+
+Theorem bof_floor_witness :
+  impl_bof db_bof vc m_bof = 4 /\ is_real db_bof m_bof 4 = false /\ is_real db_bof m_bof 5 = true.
+Proof. exact witness_bof_floor. Qed.
+
+Theorem mplex_reseek_witness :
+  impl_eof db_mx vc x_mx = Some 14 /\ read_count XAlg db_mx vc F64 x_mx 0 1 = None /\
+  uncovered XAlg db_mx vc F64 x_mx 0 1 = [TMplexSeek].
+Proof. exact witness_mplex_reseek. Qed.
 
 (* gd_getdata returns exactly min(n, max(0, gd_eof - s)) samples: on the region
    where the read path is proved (C01) and either the end-of-field is clamped
